@@ -69,6 +69,7 @@ struct Scope
     std::vector<std::string> structs; // variables with fields a,b
     std::vector<std::string> int_typedefs;
     std::vector<int> int_typedef_tags;
+    bool has_idx_t{false};  // "typedef int[0,3] idx_t;" is declared: quantifiers may range over the name
 };
 
 struct G
@@ -161,12 +162,14 @@ struct G
             if (cfg.quantifiers && !sc.arrays.empty()) {
                 std::string b = binder();
                 E body = lit_or(sc, want_tag);
-                E r{"(sum (" + b + " : int[0,3]) " + rng.pick(sc.arrays) + "[" + b + "] * " + body.s + ")", body.tags};
+                E r{"(sum (" + b + " : " + qrange(sc) + ") " + rng.pick(sc.arrays) + "[" + b + "] * " + body.s + ")", body.tags};
                 return r;
             }
             return int_atom(sc, want_tag);
         }
     }
+    /** range of a quantifier binder: written inline or through the typedef name */
+    std::string qrange(const Scope& sc) { return sc.has_idx_t && rng.chance(0.5) ? "idx_t" : "int[0,3]"; }
     E lit_or(const Scope& sc, bool want_tag)
     {
         if (want_tag)
@@ -222,8 +225,9 @@ struct G
             std::string b = binder();
             E body = lit_or(sc, want_tag);
             static const std::vector<std::string> ops{"<", "<=", "!=", ">="};
-            return E{std::string{c == 5 ? "forall" : "exists"} + " (" + b + " : int[0,3]) " + rng.pick(sc.arrays) + "[" +
-                         b + "] " + rng.pick(ops) + " " + body.s,
+            const bool paren = rng.chance(0.35);  // "forall (i : name) (body)" is also how a dynamic quantifier starts
+            return E{std::string{c == 5 ? "forall" : "exists"} + " (" + b + " : " + qrange(sc) + ") " + (paren ? "(" : "") +
+                         rng.pick(sc.arrays) + "[" + b + "] " + rng.pick(ops) + " " + body.s + (paren ? ")" : ""),
                      body.tags};
         }
         }
@@ -396,6 +400,14 @@ struct G
         sc.clocks.push_back("gx0");
         add(var("chan ch0;", "ch0"));
         sc.chans.push_back("ch0");
+        if (cfg.quantifiers && rng.chance(0.6)) {
+            MDecl d;
+            d.kind = MDecl::TYPEDEF;
+            d.text = "typedef int[0,3] idx_t;";
+            d.name = "idx_t";
+            add(d);
+            sc.has_idx_t = true;
+        }
         int budget = cfg.max_gdecls;
         int ni = 1, nx = 1, nc = 1;
         while (budget-- > 0) {
